@@ -88,6 +88,9 @@ type Failure struct {
 	// failure is reported only if the same case fails again when it is executed again at once (up to two more times);
 	// otherwise it is counted under INCONCLUSIVE:unreproduced <key> and the case is inconclusive (DESIGN 2.7).
 	Timing bool
+	// History: what the check recorded while the case ran (messages, writes, applies); written next to the replay
+	// tape, because a schedule-dependent failure may not fail again when the tape is replayed
+	History string
 }
 
 // Timed marks the failure as resting on a wall-clock bound.
@@ -234,6 +237,7 @@ type replayFile struct {
 	Error    string          `json:"error"`
 	Seed     string          `json:"rapid_seed,omitempty"`
 	Case     json.RawMessage `json:"case"`
+	History  []string        `json:"history,omitempty"`
 }
 
 func hashCase(b []byte) uint64 {
@@ -257,6 +261,9 @@ func writeReplay(id, name string, raw []byte, f *Failure) string {
 	p := replayPath(id, name)
 	_ = os.MkdirAll(filepath.Dir(p), 0o755)
 	rf := replayFile{Property: id, Check: name, Key: f.Key, Error: f.Msg, Seed: os.Getenv("VERIF_RAPID_SEED"), Case: raw}
+	if f.History != "" {
+		rf.History = strings.Split(f.History, "\n")
+	}
 	b, _ := json.MarshalIndent(rf, "", " ")
 	_ = os.WriteFile(p, b, 0o644)
 	return p
